@@ -123,6 +123,22 @@ def suite_pairs(ctx):
                     if len(waits) != 2 or abs(waits[0] - w0) > 1e-9 or abs(waits[1] - w1) > 1e-9:
                         s.fail(dict(rec, observed='waits %s' % waits, required='waits [%s, %s]' % (w0, w1)))
                     s.count(kind + ':' + verdict.split(':')[0])
+    # a client that does not mention use_server_timing behaves as the documented default says
+    dd = cl.documented_defaults()
+    if isinstance(dd.get('use_server_timing'), bool):
+        from udsoncan.client import Client
+        conn = cl.stub.StubConn(cl.CLOCK)
+        client = Client(conn, config={'standard_version': 2020})
+        conn.opened = True
+        conn.script = [(1, bytes([0x50, 3]) + struct.pack('>HH', 50, 20))]
+        cl.observe_outer(conn, lambda: client.change_session(3))
+        t = client.get_session_timing()
+        got = (t.p2_server_max, t.p2_star_server_max)
+        want = (0.05, 0.2) if dd['use_server_timing'] else (None, None)
+        s.evaluations += 1
+        if got != want:
+            s.fail({'site': 'change_session', 'input': 'client configured with standard_version only; reply 50 03 00 32 00 14', 'observed': str(got),
+                    'required': '%s (documented default use_server_timing = %s)' % (want, dd['use_server_timing'])})
     s.sample({'a': pairs[20][0], 'b': pairs[20][1]})
     return s
 
